@@ -111,6 +111,24 @@ Proof.
     + destruct n; discriminate.
 Qed.
 
+Lemma nth_error_set_nth_neq {A} : forall (l : list A) i j x, i <> j ->
+  nth_error (set_nth l j x) i = nth_error l i.
+Proof. induction l as [|a l IH]; intros i j x H; destruct j; destruct i; simpl; auto; try lia. Qed.
+
+Lemma nth_error_set_nth_eq {A} : forall (l : list A) j x y,
+  nth_error (set_nth l j x) j = Some y -> y = x.
+Proof.
+  induction l as [|a l IH]; intros j x y H; destruct j; simpl in *; try discriminate.
+  - inversion H. reflexivity.
+  - eapply IH; eauto.
+Qed.
+
+Lemma Forall_set_nth {A} (P : A -> Prop) : forall l j x, Forall P l -> P x -> Forall P (set_nth l j x).
+Proof.
+  induction l as [|a l IH]; intros j x Hl Hx; destruct j; simpl; auto; inversion Hl; subst;
+    constructor; auto.
+Qed.
+
 (* ------------------------------------------------------------------ make_config *)
 Lemma make_config_shape v w seed :
   exists sv glob fr,
@@ -160,6 +178,7 @@ Section Fresh.
     | CopyConfig c' => c' <> c
     | NewSimulator (Some c') => c' <> c
     | Execute s' _ _ _ => os <> Some s'
+    | SetSeed c' _ => c' <> c
     | _ => True
     end.
 
@@ -184,7 +203,7 @@ Section Fresh.
     assert (Hsnoc : forall s x, os = Some s -> nth_error (w_sims w ++ [x]) s = Some cfgc).
     { intros s x Es. specialize (Hs s Es). rewrite nth_error_app1; auto.
       apply nth_error_Some. rewrite Hs. discriminate. }
-    destruct o as [seed|c'|[c'|]|s' src prog shots|r|]; simpl in Hok; unfold step.
+    destruct o as [seed|c'|[c'|]|s' src prog shots|r| |c' z']; simpl in Hok; unfold step.
     - (* NewConfig *)
       destruct (make_config_shape v w seed) as (sv & glob & fr & E). rewrite E.
       destruct (cells_app w (fresh_gen Np sv) (fresh_gen Py sv) Hlen) as (A1 & A2 & A3).
@@ -237,6 +256,17 @@ Section Fresh.
       inv_split; auto.
       + rewrite A1; auto.
       + rewrite A2; auto.
+    - (* SetSeed *)
+      destruct (nth_error (w_cfgs w) c') as [cfg'|] eqn:E; [|inv_split; auto].
+      destruct (cells_app w (fresh_gen Np (Given z')) (fresh_gen Py (Given z')) Hlen)
+        as (A1 & A2 & A3).
+      inv_split; auto.
+      + rewrite nth_error_set_nth_neq; auto.
+      + rewrite A1; auto.
+      + rewrite A2; auto.
+      + intros j cfg Hj Hjc. destruct (Nat.eq_dec j c') as [Ej|Ej].
+        * subst j. apply nth_error_set_nth_eq in Hj. subst cfg. apply new_refs_avoid; auto.
+        * rewrite nth_error_set_nth_neq in Hj by auto. eapply Hcfgs; eauto.
   Qed.
 
   Lemma inv_run os : forall h w, Inv os w -> Forall (ok_op os) h -> Inv os (run v dask w h).
@@ -260,37 +290,27 @@ Definition expected_result (z : Z) (src : source) (prog shots : nat) : result :=
 Lemma refs_below_avoid n cfg : refs_below n cfg -> refs_avoid n cfg.
 Proof. unfold refs_below, refs_avoid. lia. Qed.
 
-Theorem fresh_run_closed_form v dask w z h1 h2 src prog shots :
-  wf w -> (v_zero_unseeded v = false \/ z <> 0) -> (v_global_py v = false \/ src <> PyDraw) ->
-  scenario_ok v dask w z h1 h2 ->
-  fresh_run v dask w z h1 h2 src prog shots = Some (expected_result z src prog shots).
+(* what follows the creation (or re-seeding) of the config under test, from the world w0 *)
+Definition tail_run (v : variant) (dask : bool) (w0 : world) (c : nat) (h1 h2 : list op)
+           (src : source) (prog shots : nat) : option result :=
+  let w1 := run v dask w0 h1 in
+  let s := length (w_sims w1) in
+  let w2 := run v dask (step v dask w1 (NewSimulator (Some c))) h2 in
+  let w3 := step v dask w2 (Execute s src prog shots) in
+  nth_error (w_out w3) (length (w_out w2)).
+
+Lemma fresh_tail v dask z n c w0 h1 h2 src prog shots :
+  Inv z n c None w0 -> (v_global_py v = false \/ src <> PyDraw) ->
+  Forall (avoids c (length (w_sims (run v dask w0 h1)))) h1 ->
+  Forall (avoids c (length (w_sims (run v dask w0 h1)))) h2 ->
+  tail_run v dask w0 c h1 h2 src prog shots = Some (expected_result z src prog shots).
 Proof.
-  intros [Wc Ws] Hseed Hsrc [Hh1 Hh2].
-  unfold fresh_run.
-  set (c := length (w_cfgs w)) in *. set (n := length (w_cells w)).
-  set (w0 := step v dask w (NewConfig (Some z))) in *.
+  intros I0 Hsrc Hh1 Hh2. unfold tail_run.
   set (w1 := run v dask w0 h1) in *.
   set (s := length (w_sims w1)) in *.
-  (* the invariant holds after creating the config *)
-  assert (I0 : Inv z n c None w0).
-  { unfold w0, step. destruct (make_config_seeded v w z Hseed) as [glob E]. rewrite E.
-    inv_split; fold n.
-    - rewrite nth_error_app2 by (unfold c; lia). unfold c. rewrite Nat.sub_diag. reflexivity.
-    - rewrite app_nth2 by (unfold n; lia). unfold n. rewrite Nat.sub_diag. reflexivity.
-    - rewrite app_nth2 by (unfold n; lia). unfold n.
-      replace (S (length (w_cells w)) - length (w_cells w))%nat with 1%nat by lia. reflexivity.
-    - rewrite app_length. simpl. unfold n. lia.
-    - intros j cfg Hj Hjc. apply nth_error_snoc_cases in Hj. destruct Hj as [[_ Hj]|[Hj _]].
-      + apply refs_below_avoid. rewrite Forall_forall in Wc. apply nth_error_In in Hj.
-        specialize (Wc _ Hj). unfold refs_below in *. unfold n. lia.
-      + unfold c in Hjc. lia.
-    - intros j cfg Hj _. apply refs_below_avoid. rewrite Forall_forall in Ws.
-      apply nth_error_In in Hj. specialize (Ws _ Hj). unfold refs_below in *. unfold n. lia.
-    - intros s0 Es. discriminate. }
   assert (I1 : Inv z n c None w1).
   { apply inv_run; auto. eapply Forall_impl; [|exact Hh1]. intros o Ho.
-    destruct o as [| |[|]| | |]; simpl in *; auto. discriminate. }
-  (* creating the simulator *)
+    destruct o as [| |[|]| | | |]; simpl in *; auto. discriminate. }
   set (w1' := step v dask w1 (NewSimulator (Some c))).
   assert (I2 : Inv z n c (Some s) w1').
   { destruct I1 as (Hc & Hn & Hp & Hlen & Hcfgs & Hsims & Hs).
@@ -303,7 +323,7 @@ Proof.
   set (w2 := run v dask w1' h2).
   assert (I3 : Inv z n c (Some s) w2).
   { apply inv_run; auto. eapply Forall_impl; [|exact Hh2]. intros o Ho.
-    destruct o as [| |[|]| | |]; simpl in *; auto. intros E. inversion E. auto. }
+    destruct o as [| |[|]| | | |]; simpl in *; auto. intros E. inversion E. auto. }
   destruct I3 as (Hc & Hn & Hp & Hlen & Hcfgs & Hsims & Hs).
   unfold step. rewrite (Hs s eq_refl).
   destruct src; simpl.
@@ -312,6 +332,62 @@ Proof.
   - rewrite nth_error_app2 by lia. rewrite Nat.sub_diag. simpl. rewrite Hn. reflexivity.
   - destruct Hsrc as [Hg|Hg]; [|congruence]. rewrite Hg. simpl.
     rewrite nth_error_app2 by lia. rewrite Nat.sub_diag. simpl. rewrite Hp. reflexivity.
+Qed.
+
+Theorem fresh_run_closed_form v dask w z h1 h2 src prog shots :
+  wf w -> (v_zero_unseeded v = false \/ z <> 0) -> (v_global_py v = false \/ src <> PyDraw) ->
+  scenario_ok v dask w z h1 h2 ->
+  fresh_run v dask w z h1 h2 src prog shots = Some (expected_result z src prog shots).
+Proof.
+  intros [Wc Ws] Hseed Hsrc [Hh1 Hh2].
+  change (fresh_run v dask w z h1 h2 src prog shots) with
+    (tail_run v dask (step v dask w (NewConfig (Some z))) (length (w_cfgs w)) h1 h2 src prog shots).
+  set (c := length (w_cfgs w)) in *. set (n := length (w_cells w)).
+  apply (fresh_tail v dask z n c); auto.
+  unfold step. destruct (make_config_seeded v w z Hseed) as [glob E]. rewrite E.
+  inv_split; fold n.
+  - rewrite nth_error_app2 by (unfold c; lia). unfold c. rewrite Nat.sub_diag. reflexivity.
+  - rewrite app_nth2 by (unfold n; lia). unfold n. rewrite Nat.sub_diag. reflexivity.
+  - rewrite app_nth2 by (unfold n; lia). unfold n.
+    replace (S (length (w_cells w)) - length (w_cells w))%nat with 1%nat by lia. reflexivity.
+  - rewrite app_length. simpl. unfold n. lia.
+  - intros j cfg Hj Hjc. apply nth_error_snoc_cases in Hj. destruct Hj as [[_ Hj]|[Hj _]].
+    + apply refs_below_avoid. rewrite Forall_forall in Wc. apply nth_error_In in Hj.
+      specialize (Wc _ Hj). unfold refs_below in *. unfold n. lia.
+    + unfold c in Hjc. lia.
+  - intros j cfg Hj _. apply refs_below_avoid. rewrite Forall_forall in Ws.
+    apply nth_error_In in Hj. specialize (Ws _ Hj). unfold refs_below in *. unfold n. lia.
+  - intros s0 Es. discriminate.
+Qed.
+
+(* the seed arrives through the setter after construction (configs[c].seed_sequence = z),
+   whatever the config was constructed with and whatever was done with it before: the next
+   fresh simulator built from it returns the same closed form *)
+Theorem setter_run_closed_form v dask w c z h1 h2 src prog shots :
+  wf w -> (c < length (w_cfgs w))%nat -> (v_global_py v = false \/ src <> PyDraw) ->
+  Forall (avoids c (length (w_sims (run v dask (step v dask w (SetSeed c z)) h1)))) h1 ->
+  Forall (avoids c (length (w_sims (run v dask (step v dask w (SetSeed c z)) h1)))) h2 ->
+  tail_run v dask (step v dask w (SetSeed c z)) c h1 h2 src prog shots
+  = Some (expected_result z src prog shots).
+Proof.
+  intros [Wc Ws] Hc Hsrc Hh1 Hh2.
+  set (n := length (w_cells w)).
+  apply (fresh_tail v dask z n c); auto.
+  unfold step. destruct (nth_error (w_cfgs w) c) as [cfg0|] eqn:E0.
+  2:{ apply nth_error_None in E0. lia. }
+  inv_split; fold n.
+  - clear -Hc. revert c Hc. induction (w_cfgs w) as [|a l IH]; intros c Hc; simpl in *; [lia|].
+    destruct c; simpl; auto. apply IH. lia.
+  - rewrite app_nth2 by (unfold n; lia). unfold n. rewrite Nat.sub_diag. reflexivity.
+  - rewrite app_nth2 by (unfold n; lia). unfold n.
+    replace (S (length (w_cells w)) - length (w_cells w))%nat with 1%nat by lia. reflexivity.
+  - rewrite app_length. simpl. unfold n. lia.
+  - intros j cfg Hj Hjc. rewrite nth_error_set_nth_neq in Hj by auto.
+    apply refs_below_avoid. rewrite Forall_forall in Wc. apply nth_error_In in Hj.
+    specialize (Wc _ Hj). unfold refs_below in *. unfold n. lia.
+  - intros j cfg Hj _. apply refs_below_avoid. rewrite Forall_forall in Ws.
+    apply nth_error_In in Hj. specialize (Ws _ Hj). unfold refs_below in *. unfold n. lia.
+  - intros s0 Es. discriminate.
 Qed.
 
 (* same seed => same result, for every history, every starting world, dask on or off:
@@ -367,7 +443,7 @@ Proof.
   assert (Hnew : forall sv g1 g2, refs_below (length (w_cells w ++ [g1; g2]))
             (mkCfg sv (length (w_cells w)) (S (length (w_cells w))))).
   { intros. unfold refs_below. rewrite app_length. simpl. lia. }
-  destruct o as [seed|c'|[c'|]|s' src prog shots|r|]; unfold step.
+  destruct o as [seed|c'|[c'|]|s' src prog shots|r| |c' z']; unfold step.
   - destruct (make_config_shape v w seed) as (sv & glob & fr & E). rewrite E. simpl.
     split; [apply Forall_app; split; [apply Hgrow; auto|constructor; auto]|apply Hgrow; auto].
   - destruct (nth_error (w_cfgs w) c') as [cfg|] eqn:E; simpl; [|split; auto].
@@ -384,6 +460,8 @@ Proof.
   - split; auto.
   - destruct (make_config_shape v w None) as (sv & glob & fr & E). rewrite E. simpl.
     split; apply Hgrow; auto.
+  - destruct (nth_error (w_cfgs w) c') as [cfg|] eqn:E; simpl; [|split; auto].
+    split; [|apply Hgrow; auto]. apply Forall_set_nth; [apply Hgrow; auto|apply Hnew].
 Qed.
 
 Theorem wf_reachable v dask h : wf (run v dask init_world h).
